@@ -370,10 +370,10 @@ theorem not_resuming {s : St} (w : InvW s) {a : Nat} (hra : rcving s a) (hau : a
 
 /-- a receive of a user other than `u` ends: the pending slot is cleared, a result is returned, the task ends -/
 theorem InvU.other_leave {s : St} (i : InvU cfg u can lg sp sp2 s) (b : InvB s) (w : InvW s) {a : Nat} (hra : rcving s a)
-    (hau : a ≠ u) (g : List (Nat × Bool)) (x : Res) :
-    InvU cfg u can lg sp sp2 ((({ s with vres := none, rcvBusy := false, gone := g } : St).emit (.ret a x)).finish (.U a)) := by
+    (hau : a ≠ u) (q : List Nat) (g : List (Nat × Bool)) (x : Res) :
+    InvU cfg u can lg sp sp2 ((({ s with vres := none, rcvBusy := false, queue := q, gone := g } : St).emit (.ret a x)).finish (.U a)) := by
   have hnr := not_resuming (u := u) w hra hau
-  have i1 : InvU cfg u can lg sp sp2 (({ s with vres := none, rcvBusy := false, gone := g } : St).emit (.ret a x)) :=
+  have i1 : InvU cfg u can lg sp sp2 (({ s with vres := none, rcvBusy := false, queue := q, gone := g } : St).emit (.ret a x)) :=
     i.ext [.ret a x] rfl (uboring_one (ret_ne hau x)) rfl rfl rfl id id id (fun _ h => Or.inl h) id
       (fun h1 h2 _ => absurd ⟨h1, h2⟩ hnr)
   exact i1.finish (by intro e; injection e with e; exact hau e) (fun h => waits_of_invB b h) (by intro e; simp at e)
@@ -696,8 +696,8 @@ theorem stepRun_U {s : St} {sd lo : Prop} (a : InvA cfg s) (b : InvB s) (w : Inv
       subst htx
       have hxu : x ≠ u := by intro e; subst e; exact i0.nrecv hp
       split
-      · exact i0.other_leave b0 w0 ⟨hal, Or.inr hp⟩ hxu _ _
-      · exact i0.other_leave b0 w0 ⟨hal, Or.inr hp⟩ hxu _ _
+      · exact i0.other_leave b0 w0 ⟨hal, Or.inr hp⟩ hxu _ _ _
+      · exact i0.other_leave b0 w0 ⟨hal, Or.inr hp⟩ hxu _ _ _
     · rename_i x hp
       have htx : t = .U x := allowed_loginWait (by rw [hp] at htyp; exact htyp)
       subst htx
@@ -707,10 +707,10 @@ theorem stepRun_U {s : St} {sd lo : Prop} (a : InvA cfg s) (b : InvB s) (w : Inv
         split
         · rename_i hq
           exact i0.self_refused b0 hal (w0.qc hq)
-            (s1 := ({ s0 with vres := none, rcvBusy := false, gone := _ } : St).emit (.ret x .refused)) rfl rfl
+            (s1 := ({ s0 with vres := none, rcvBusy := false, queue := _ } : St).emit (.ret x .refused)) rfl rfl
         · have hcan : can := i0.ncan hst
           have i1 : InvU cfg x can lg sp sp2
-              (({ s0 with vres := none, rcvBusy := false, gone := s0.gone ++ s0.vres.toList.map (fun n => (n, false)) } : St).setStatus (.U x) .ready) :=
+              (({ s0 with vres := none, rcvBusy := false, queue := s0.vres.toList ++ s0.queue } : St).setStatus (.U x) .ready) :=
             i0.wake_cancelled hst (by simp [uv, St.setStatus])
           exact i1.enter rfl rfl rfl rfl (c := .userTail x .cancelled) rfl
             (by intro r e; injection e with _ e; exact Or.inr ⟨e.symm, hcan⟩) (by simp [St.setStatus])
@@ -719,9 +719,9 @@ theorem stepRun_U {s : St} {sd lo : Prop} (a : InvA cfg s) (b : InvB s) (w : Inv
       · have hne : Tid.U x ≠ Tid.U u := by intro e; injection e with e; exact hxu e
         have hnr := not_resuming (u := u) w0 hrx hxu
         split
-        · exact i0.other_leave b0 w0 hrx hxu _ _
+        · exact i0.other_leave b0 w0 hrx hxu _ _ _
         · have i1 : InvU cfg u can lg sp sp2
-              (({ s0 with vres := none, rcvBusy := false, gone := s0.gone ++ s0.vres.toList.map (fun n => (n, false)) } : St).setStatus (.U x) .ready) :=
+              (({ s0 with vres := none, rcvBusy := false, queue := s0.vres.toList ++ s0.queue } : St).setStatus (.U x) .ready) :=
             i0.ext [] (by simp [St.setStatus]) (uboring_nil u) rfl (by simp [St.setStatus, Ne.symm hne]) rfl id
               (by simp [St.setStatus]) (by simp [St.setStatus]) (fun _ h => Or.inl (by simpa [St.setStatus] using h)) id
               (fun h1 h2 _ => absurd ⟨h1, h2⟩ hnr)
@@ -793,7 +793,7 @@ theorem stepRun_U {s : St} {sd lo : Prop} (a : InvA cfg s) (b : InvB s) (w : Inv
       subst htx
       have hxu : x ≠ u := by intro e; subst e; exact i0.nrecv hp
       split
-      · exact i0.other_leave b0 w0 ⟨hal, Or.inr hp⟩ hxu _ _
+      · exact i0.other_leave b0 w0 ⟨hal, Or.inr hp⟩ hxu _ _ _
       · split
         · exact i0.other_leave' b0 hxu _
         · exact i0.other_leave' b0 hxu _
